@@ -8,8 +8,11 @@ Engine E1 (exhaustive input enumeration), NumPy backend:
                (0.1, 0.2, 0.1+0.2, 2.3, 1e-3, 2^24+1, ..) x the cells sitting ON and immediately on either side of
                each edge IN THE RASTER'S OWN DTYPE (float32: float32(e) and its two float32 neighbours; float64: e and
                its two float64 neighbours plus the float32 triple; int32: floor/ceil), compared exactly;
-  binary       every subset of a 5-value alphabet x every cell letter incl. NaN/+-inf, float and int rasters; the same
-               for a 5-value alphabet of values that are not float32-representable x their dtype neighbours;
+  binary       `values` is an ORDERED list: every permutation of every subset (length 0..5: 326 lists) of a 5-value
+               alphabet x every cell letter incl. NaN/+-inf, float and int rasters; the same for a 5-value alphabet of
+               values that are not float32-representable x their dtype neighbours ("1 exactly on the listed values"
+               holds for a list in any order; reclassify's bins, in contrast, are only defined for ascending lists
+               and are never permuted);
   quantile / equal_interval / natural_breaks
                every raster of N cells (1xN and 2x(N/2)) over small alphabets (integers + NaN/inf, values
                that are not float32-representable, signed values + -inf, 7 distinct integers) x k, against exact-rational /
@@ -25,7 +28,7 @@ import numpy as np
 from ..core.digest import bytes64
 from ..core.rasters import dataarray, grid
 from ..core.space import Space
-from ..core.spaces import SumSpace
+from ..core.spaces import SumSpace, ordered_sublists
 from ..oracles import classify as ref
 
 PROPERTY = "C12"
@@ -33,8 +36,8 @@ LEVEL = "model_checking"
 NAN, INF = float("nan"), float("inf")
 
 RULE = ("reclassify: rank -> (dtype, strictly ascending bin list = non-empty subset of {0..B}, cell value | "
-        "layout of the whole value alphabet); binary: rank -> (dtype, subset of the 5 listed values, 1-cell raster "
-        "per letter | whole-alphabet raster); data-driven classifiers: rank -> (shape, mixed-radix number of the "
+        "layout of the whole value alphabet); binary: rank -> (dtype, ORDERED list of listed values = one permutation of "
+        "one subset of the 5-value alphabet, shortest list first, 1-cell raster per letter | whole-alphabet raster); data-driven classifiers: rank -> (shape, mixed-radix number of the "
         "cell letters, k); equal_interval min/max grid: rank -> (integer pair min < max, k, 2-cell | full raster).  "
         "A case is non-trivial when its raster holds >= 2 distinct finite values (reclassify / "
         "binary: when the output has a non-NaN cell); distinct = distinct (input, parameters, output) digests")
@@ -46,6 +49,10 @@ ASSUMPTIONS = [
     "it, so that one cell is a tie (its float32 neighbours must be 0; float64 rasters are compared exactly)",
     "reclassify / binary compare the cell exactly as stored in the raster dtype with the edge / value exactly as "
     "given (float64 or int): float32(0.1) > 0.1 belongs to the NEXT bin",
+    "binary: `values` is enumerated as an ordered list without repetition (ascending, descending and every other "
+    "order of every subset of the alphabet); lists naming the same value twice are not generated",
+    "reclassify: the statement defines the mapping for ascending bin lists only, so bin lists are never permuted "
+    "(descending / shuffled bins are outside the domain)",
     "reclassify: bin lists are strictly ascending; non-strict (duplicate) ascending lists are explored but only "
     "reported informationally (counter nonstrict_*); with a final bin of +inf the +-inf cells are not asserted "
     "(the statement says NaN, the docstring example shows the last class)",
@@ -88,6 +95,9 @@ BIN_CELLS_I = BIN_VALUES_I + (3, 7)
 EDGES = {"quick": (0.1, 0.2, 0.1 + 0.2, 2.3, 1e-3, 16777217, 0.7, 1.1),
          "thorough": (0.1, 0.2, 0.1 + 0.2, 2.3, 1e-3, 16777217, 0.7, 1.1, 3e-3, 0.3, 2.3000000001)}
 BIN_VALUES_NF = (0.1, 0.2, 2.3, 1e-3, 16777217)
+# binary's `values` as ORDERED lists: index tuples into a 5-value alphabet, every permutation of every subset,
+# shortest first (length 0: 1, 1: 5, 2: 20, 3: 60, 4: 120, 5: 120 = 326 lists)
+BIN_LISTS = ordered_sublists(range(5), 5)
 EI_GRID = {"quick": dict(lo=-3, hi=18, ks=tuple(range(2, 9))), "thorough": dict(lo=-5, hi=24, ks=tuple(range(2, 13)))}
 
 
@@ -129,9 +139,11 @@ BOUNDS = {t: {
                    "edge_cells": "per edge e: float32 rasters float32(e) and its 2 float32 neighbours; float64 rasters "
                                  "e and its 2 float64 neighbours + the float32 triple; int32 floor(e), ceil(e) "
                                  "(e-1, e, e+1 for an integer e); plus 0"},
-    "binary": {"values": "all 32 subsets of %r (ints: %r)" % (BIN_VALUES, BIN_VALUES_I),
+    "binary": {"values": "ordered lists: all %d permutations of all 32 subsets (length 0..5) of %r (ints: %r)"
+                         % (len(BIN_LISTS), BIN_VALUES, BIN_VALUES_I),
                "cells": [str(x) for x in BIN_CELLS_F], "dtypes": ["float64", "float32", "int32", "int64"],
-               "nf32_values": "all 32 subsets of %r" % (BIN_VALUES_NF,),
+               "nf32_values": "ordered lists: all %d permutations of all 32 subsets of %r"
+                              % (len(BIN_LISTS), BIN_VALUES_NF),
                "nf32_cells": "the edge_cells of these values per dtype + NaN, +-inf (float rasters)"},
     "equal_interval_minmax_grid": {
         "min_max": "every integer pair %d <= min < max <= %d" % (EI_GRID[t]["lo"], EI_GRID[t]["hi"]),
@@ -272,15 +284,16 @@ class ReclassifySpace(Space):
 # ---------------------------------------------------------------------------------------------------
 class BinarySpace(Space):
     """variant 'std': the 5-value alphabets above; 'nf32': listed values that are not float32-representable x the
-    cells on either side of each of them in the raster's own dtype."""
+    cells on either side of each of them in the raster's own dtype.  `values` runs over BIN_LISTS: every
+    permutation of every subset of the alphabet (the order in which the values are listed must not matter)."""
     DTYPES = ("f8", "f4", "i4", "i8")
 
     def __init__(self, variant="std"):
         self.variant = variant
         self.name = "binary" if variant == "std" else "binary_" + variant
-        self.subsets = [c for n in range(6) for c in itertools.combinations(range(5), n)]
+        self.lists = BIN_LISTS
         self.nlay = {dt: len(self.cells(dt)) + 2 for dt in self.DTYPES}
-        self.parts = SumSpace([(dt, len(self.subsets) * self.nlay[dt]) for dt in self.DTYPES])
+        self.parts = SumSpace([(dt, len(self.lists) * self.nlay[dt]) for dt in self.DTYPES])
         self.size = self.parts.size
 
     def alphabet(self, dt):
@@ -302,7 +315,7 @@ class BinarySpace(Space):
         dt = self.DTYPES[p]
         si, lay = divmod(local, self.nlay[dt])
         alpha = self.alphabet(dt)
-        values = [alpha[i] for i in self.subsets[si]]
+        values = [alpha[i] for i in self.lists[si]]
         cells = self.cells(dt)
         if lay < len(cells):
             a = np.array([[cells[lay]]], dtype=dt)
